@@ -463,6 +463,21 @@ def finite_case(api):
                   ("get_state_index", lambda s: sys2.get_state_index(s, 0))):
         for bad in ("Z", 2, -1, N.Species("Z"), 7):
             raises("unknown-species/%s/%r" % (nm, bad if not isinstance(bad, N.Species) else "Species(Z)"), lambda: f(bad))
+    # reactions naming a species the network does not have, on either side and at any rank
+    for eq in ("Z -> A", "A -> Z", "A -> B + Z", " -> Z", "A + B -> 2 Z", "A + Z -> B", "2 Z -> "):
+        raises("network/unknown-species-in-reaction/%s" % eq.strip(),
+               lambda: N.RDNetwork([N.Species("A"), N.Species("B")], [N.Reaction("A -> B"), N.Reaction(eq)]))
+    accepts("network/known-species-in-reaction", lambda: N.RDNetwork([N.Species("A"), N.Species("B")], [N.Reaction("A + B -> 2 B")]))
+    # coarse-graining maps mixing environments, wherever the conflicting cell sits
+    CG = api.mod("coarsegrain")
+    g4 = G.RDGridSpace(w=4, cell_env=[0, 0, 1, 1])
+    for im in ([0, 0, 1, 0], [0, 1, 1, 0], [0, 0, 0, 0], [1, 0, 0, 1], [-1, 0, 0, 0 + 0], [0, -1, 1, 0]):
+        mixed = any(len(set(g4.get_cell_env_array()[i] for i in range(4) if im[i] == gidx)) > 1 for gidx in set(im) - {-1})
+        ok_range = sorted(set(im) - {-1}) == list(range(max(im) + 1)) and max(im) >= 0
+        if mixed or not ok_range:
+            raises("coarsegrain/invalid-map/%r" % (im,), lambda: CG.check_index_map_validity(list(im), g4))
+        else:
+            accepts("coarsegrain/valid-map/%r" % (im,), lambda: CG.check_index_map_validity(list(im), g4))
     raises("space/unsupported-type", lambda: SP.rdspace_from_dict({"type": "torus"}))
     raises("system/space-wrong-type", lambda: R.RDSystem(net, space=3))
     raises("system/network-wrong-type", lambda: R.RDSystem({"species": []}))
